@@ -32,12 +32,12 @@ def cases(tier, seed):
     cs = []
     for name in pool.SIGNERS + ['elg1024_0']:
         cs.append({'t': 'own_key', 'key': name})
-    for i in range(20 if tier == 'quick' else 60):
+    for i in range(20 if tier == 'quick' else 400):
         cs.append({'t': 'own_msg', 'i': i, 'seed': seed})
-    for i in range(16 if tier == 'quick' else 60):
+    for i in range(16 if tier == 'quick' else 300):
         cs.append({'t': 'own_sig', 'i': i, 'seed': seed})
     cs.append({'t': 'mutate', 'seed': seed})
-    nb = 6 if tier == 'quick' else 40
+    nb = 6 if tier == 'quick' else 400
     for tag in FTAGS:
         for b in range(nb):
             cs.append({'t': 'foreign', 'tag': tag, 'batch': b, 'seed': seed, 'n': 30})
